@@ -84,6 +84,51 @@ def run(check, an: Analysis):
                    'os only in the wait-queue selector' % (n_imports,
                                                           sorted(FORBIDDEN_MODULES)),
                    analysed=n_imports)
+    # weak references: what they still hold depends on when the collector ran -- every
+    # weak container of the package is named here with the reason why that cannot be seen
+    weak_ok = {
+        ('usim._basics.tracked', 'self._listeners'):
+            'walked in insertion order; an entry only vanishes together with the last '
+            'reference to the comparison, which then has no waiter to wake',
+        ('usim._basics._resource_level', '__specialisation_cache__'):
+            'cache of generated level types, keyed by field names: a miss builds an equal '
+            'type',
+        ('usim._primitives.concurrent_exception', '__specialisations__'):
+            'cache of generated exception types (C17 decides what a miss means)',
+    }
+    n_weak = 0
+    for module in an.p.modules.values():
+        parents = {}
+        for node in ast.walk(module.tree):
+            for child in ast.iter_child_nodes(node):
+                parents[id(child)] = node
+        for node in ast.walk(module.tree):
+            if not (isinstance(node, ast.Call) and isinstance(node.func,
+                                                              (ast.Name, ast.Attribute))):
+                continue
+            try:
+                binding = an.p.resolve_dotted(module, node.func)
+            except Exception:
+                binding = None
+            if not binding or binding[0] != 'ext' or not binding[1].startswith('weakref.'):
+                continue
+            n_weak += 1
+            holder = parents.get(id(node))
+            target = None
+            if isinstance(holder, ast.Assign) and len(holder.targets) == 1:
+                target = ast.unparse(holder.targets[0])
+            elif isinstance(holder, ast.AnnAssign):
+                target = ast.unparse(holder.target)
+            check.instance('T', 'weak:%s:%s' % (module.name, target),
+                           (module.name, target) in weak_ok,
+                           '%s:%d' % (module.relpath, node.lineno),
+                           weak_ok.get((module.name, target),
+                                       'a weak container or reference that is not on the '
+                                       'reviewed list: what it holds depends on when the '
+                                       'garbage collector ran'))
+    check.instance('T', 'weak-references-audited', n_weak >= 3, 'usim/**',
+                   '%d constructions of weakref objects, each named with its reason' % n_weak,
+                   analysed=n_weak)
     waitq = an.p.modules['usim._core.waitq']
     env_reads = [n for n in ast.walk(waitq.tree) if isinstance(n, ast.Attribute)
                  and ast.unparse(n) == 'os.environ']
